@@ -1110,6 +1110,11 @@ def check_history(res, W, obs, plan, label, prior=None, replay=None):
     res.evals += 1
     known_ids = set(sid.values())
     extra = [r for r in obs["records"] if r["id"] not in known_ids]
+    if W["entry"] == "call" and any(r["id"] == "" for r in extra):
+        # called directly with a value whose only "source" is an empty string, write_db files the failure under the
+        # identifier "": an artefact of a value without source, outside what the property states (observation only)
+        res.count("call:record-under-empty-identifier")
+        extra = [r for r in extra if r["id"] != ""]
     if extra:
         res.witness("C14/conservation/record-without-input", **det(extra=extra[:6]))
     extra_y = [k for k in yields if k not in set(keys)]
